@@ -12,7 +12,7 @@ HEAD = """(* %s -- %s
    execution after every action; `no_err err_Cxx m` = the monitor reported no error of this property's class;
    `no_raise ls` = no request ended in an exception. *)
 From Coq Require Import ZArith List Bool.
-From CS Require Import Actions NAdvance Multistage Exec Sched RunFacts Projections BasicInv MultistageRun TLBridge MixBridge.
+From CS Require Import Actions NAdvance Multistage Exec Sched RunFacts Projections BasicInv MultistageRun AllocTotal TLBridge MixBridge.
 Import ListNotations.
 Open Scope Z_scope.
 
@@ -40,12 +40,13 @@ Theorem {pid}_single_disk : forall (mv : bool) (N : Z) (k : nat), 1 <= N ->
 Proof. intros mv N k H1. destruct (single_disk_run mv N H1 k) as (o0 & m & ls & E & Hm & Hl). exists o0, m, ls. auto using mon_ok_no_err. Qed.
 Print Assumptions {pid}_single_disk.
 
-(* MultistageCheckpointSchedule: every N, every RAM/DISK split, both trajectories; budgets = the declared unit counts *)
-Theorem {pid}_multistage : forall (N ram disk : Z) (tj : traj) (c : Multistage.cfg) (k : nat),
-  1 <= N -> 0 <= ram -> 0 <= disk -> (2 <= N -> 1 <= ram + disk) -> Multistage.construct N ram disk tj = Ok c ->
+(* MultistageCheckpointSchedule: every N, every RAM/DISK split, both trajectories; budgets = the declared unit counts;
+   the constructor (allocate_snapshots included) is proved total on this domain, so there is no hypothesis about it *)
+Theorem {pid}_multistage : forall (N ram disk : Z) (tj : traj) (k : nat),
+  1 <= N -> 0 <= ram -> 0 <= disk -> (2 <= N -> 1 <= ram + disk) ->
   exists o0 m ls, run_case (PMulti N ram disk tj) (ms_params N ram disk) (repeat Next k) = Ok (o0, m, ls) /\\ no_err {e} m /\\ no_raise ls.
 Proof.
-  intros N ram disk tj c k H1 H2 H3 H4 H5. destruct (multistage_run N ram disk tj c k H1 H2 H3 H4 H5) as (o0 & m & ls & E & Hm & Hl & _).
+  intros N ram disk tj k H1 H2 H3 H4. destruct (multistage_run_total N ram disk tj k H1 H2 H3 H4) as (o0 & m & ls & E & Hm & Hl).
   exists o0, m, ls. auto using mon_ok_no_err.
 Qed.
 Print Assumptions {pid}_multistage.
@@ -110,7 +111,7 @@ HEAD2 = """(* %s -- %s
    Property theorems only: each proof is one application of a lemma proved in Proofs/, followed by Print Assumptions. *)
 From Coq Require Import ZArith List Bool.
 From CS Require %s.
-From CS Require Import Actions NAdvance Multistage Exec Sched RunFacts Projections BasicInv MultistageRun TLBridge MixBridge.
+From CS Require Import Actions NAdvance Multistage Exec Sched RunFacts Projections BasicInv MultistageRun AllocTotal TLBridge MixBridge.
 Import ListNotations.
 Open Scope Z_scope.
 
@@ -198,8 +199,32 @@ mk('C15', ['MemoCoh','SchedProofs'], [lifted('C15_memo_warm_planC','MemoCoh','me
    lifted('C15_history_independent','MemoCoh','C15_history_independent','a successful call returns the pure value whatever the call history')])
 mk('C16', ['TabEq','TabSim','MemoCoh'], [lifted('C16_tabulate_planC','TabSim','tabulate_planC','the extracted tabulated planner (list of lists, as the numpy array) succeeds and every entry is the canonical plan'),
    lifted('C16_memo_warm_planC','MemoCoh','memo_warm_planC','... and so is every answer of the extracted memoised planner: the two paths prescribe the same kind, length and cost'),lifted('C16_table','TabEq','C16_table','the tabulated planner never fails an assertion and every entry equals the memoised planner')])
-mk('C17', ['NAdv','AllocProofs'], [lifted('C17_n_advance_total','NAdv','n_advance_spec','n_advance never raises on its domain; range; limiting cases; optimal region'),
-   lifted('C17_construct_labels','AllocProofs','construct_labels','shape of a constructed Multistage schedule')])
+C17_complete = '''(* valid parameters yield a complete stream: the run theorems, which have no hypothesis beyond the documented domain
+   (degenerate cases max_n = 1 and more units than steps included); the streams end with EndReverse by C09_flags + termination *)
+Theorem C17_multistage_complete : forall (N ram disk : Z) (tj : traj) (k : nat), 1 <= N -> 0 <= ram -> 0 <= disk -> (2 <= N -> 1 <= ram + disk) ->
+  exists o0 m ls, run_case (PMulti N ram disk tj) (ms_params N ram disk) (repeat Next k) = Ok (o0, m, ls) /\\ mon_ok m /\\ no_raise ls.
+Proof. exact multistage_run_total. Qed.
+Print Assumptions C17_multistage_complete.
+Theorem C17_mixed_complete : forall (N s : Z) (sg : storage) (tab : bool) (k : nat), 1 <= N -> 0 <= s -> (2 <= N -> 1 <= s) -> sg = RAM \\/ sg = DISK ->
+  exists o0 m ls, run_case (PMixed N s sg tab) (pmx N (Z.min s (N - 1)) sg) (repeat Next k) = Ok (o0, m, ls) /\\ mon_ok m /\\ no_raise ls.
+Proof. exact mixed_run. Qed.
+Print Assumptions C17_mixed_complete.
+Theorem C17_twolevel_complete : forall (N P bs : Z) (bst : storage) (tj : traj), 1 <= N -> 1 <= P -> 0 <= bs -> bst = RAM \\/ bst = DISK -> forall k : nat,
+  exists o0 m ls, run_case (PTwo P bs bst tj) (ptl N P bs bst) (repeat Next (Z.to_nat (TLBridge.Q N P)) ++ [Fin N] ++ repeat Next (S k)) = Ok (o0, m, ls) /\\ mon_ok m /\\ no_raise ls.
+Proof. exact twolevel_run. Qed.
+Print Assumptions C17_twolevel_complete.
+
+'''
+mk('C17', ['NAdv','AllocProofs','InvalidProofs'], [C17_complete,
+   lifted('C17_multistage_construct_total','AllocTotal','construct_total','the Multistage constructor returns for every tuple of the domain'),
+   lifted('C17_allocate_total','AllocTotal','allocate_total','allocate_snapshots (dry run of the schedule with placeholder labels, weighing, top-k) never raises on the domain'),
+   lifted('C17_n_advance_total','NAdv','n_advance_spec','n_advance never raises on its domain; range; limiting cases; optimal region'),
+   lifted('C17_construct_labels','AllocProofs','construct_labels','shape of a constructed Multistage schedule'),
+   lifted('C17_multistage_rejects_max_n','InvalidProofs','multistage_rejects_max_n','max_n < 1: ValueError at construction'),
+   lifted('C17_multistage_no_units','InvalidProofs','multistage_no_units','no unit and max_n > 1: the constructor returns, the first next() raises ValueError and the generator is finished -- no action is ever emitted'),
+   lifted('C17_mixed_rejects','InvalidProofs','mixed_rejects','Mixed: max_n < 1, no unit for max_n > 1, or a storage other than RAM / DISK: ValueError at construction (both planner paths)'),
+   lifted('C17_twolevel_rejects','InvalidProofs','twolevel_rejects','TwoLevel: period < 1 or a binomial storage other than RAM / DISK: ValueError at construction'),
+   lifted('C17_revolve_family_rejects_partial','InvalidProofs','revolve_rejects','PARTIAL (Revolve family): max_n < 1 or no RAM unit for max_n > 1 is an exception at construction; that valid tuples always yield a complete stream is not proved for the Revolve family (correspondence + oracle)')])
 C18_runs = safety('C18','C18','')
 mk('C18', ['Repr'], [C18_runs, lifted('C18_z_roundtrip','Repr','z_roundtrip','decimal printing of integers parses back')])
 mk('C19', ['PeriodProofs'], [lifted('C19_periodic_sweep_writes','PeriodProofs','periodic_sweep_writes','disk writes of the forward sweep are exactly at 0, m, 2m, ... while more than m steps remain'),
